@@ -209,6 +209,60 @@ Definition apply_fun (k : fkind) (args : list sexpr) : option sexpr :=
   | _, _ => None
   end.
 
+(* ---- integer literals ----
+   CPython computes a subtree made of INTEGER literals only on ints, not on floats (`-0` is 0: an int zero has no sign;
+   `0 * -3` is 0), and only then converts to float64 for the store.  fold_ints replaces such subtrees — unary minus,
+   + - *, abs, max, min of integer literals, as long as the result stays within 2^53 — by the integer literal they
+   denote (text: optional `-`, digits), bottom-up; everything else is float arithmetic. *)
+Definition int_lit (s : string) : bool :=
+  match s with
+  | String c r => if Ascii.eqb c "-" then (1 <=? String.length r) && (lit_digits r =? String.length r)
+                  else lit_digits s =? String.length s
+  | "" => false
+  end.
+Fixpoint digits_Z (acc : Z) (s : string) : Z :=
+  match s with
+  | "" => acc
+  | String c r => if is_digit c then digits_Z (acc * 10 + (Z.of_N (N_of_ascii c) - 48))%Z r else digits_Z acc r
+  end.
+Definition int_val (s : string) : Z :=
+  match s with String c r => if Ascii.eqb c "-" then (- digits_Z 0 r)%Z else digits_Z 0 s | "" => 0%Z end.
+Definition int_text (z : Z) : string := string_of_Z z.
+Definition small_int (z : Z) : bool := (Z.abs z <=? 2 ^ 53)%Z.
+Definition fold2 (f : Z -> Z -> Z) (a b : string) (dflt : sexpr) : sexpr :=
+  if int_lit a && int_lit b && small_int (f (int_val a) (int_val b)) then ENum (int_text (f (int_val a) (int_val b))) else dflt.
+
+Fixpoint fold_ints (e : sexpr) : sexpr :=
+  match e with
+  | ENum _ | ERead _ _ => e
+  | ENeg a => match fold_ints a with
+              | ENum s => if int_lit s then ENum (int_text (- int_val s)) else ENeg (ENum s)
+              | a' => ENeg a'
+              end
+  | EAbs a => match fold_ints a with
+              | ENum s => if int_lit s then ENum (int_text (Z.abs (int_val s))) else EAbs (ENum s)
+              | a' => EAbs a'
+              end
+  | EBin o a b =>
+    match o, fold_ints a, fold_ints b with
+    | OAdd, ENum x, ENum y => fold2 Z.add x y (EBin o (ENum x) (ENum y))
+    | OSub, ENum x, ENum y => fold2 Z.sub x y (EBin o (ENum x) (ENum y))
+    | OMul, ENum x, ENum y => fold2 Z.mul x y (EBin o (ENum x) (ENum y))
+    | _, a', b' => EBin o a' b'
+    end
+  | EMax a b => match fold_ints a, fold_ints b with
+                | ENum x, ENum y => fold2 Z.max x y (EMax (ENum x) (ENum y))
+                | a', b' => EMax a' b'
+                end
+  | EMin a b => match fold_ints a, fold_ints b with
+                | ENum x, ENum y => fold2 Z.min x y (EMin (ENum x) (ENum y))
+                | a', b' => EMin a' b'
+                end
+  | EIf o l r a b => EIf o (fold_ints l) (fold_ints r) (fold_ints a) (fold_ints b)
+  | ECall1 g a => ECall1 g (fold_ints a)
+  | ECall2 g a b => ECall2 g (fold_ints a) (fold_ints b)
+  end.
+
 Section Tree.
   Variable row : string -> option nat.        (* position of a series in NAMES *)
 
@@ -298,7 +352,7 @@ Section Tree.
     match ts with
     | CRead y k0 :: CAssign :: rhs =>
       match row y, p_expr (tree_fuel rhs) rhs with
-      | Some i, Some (e, []) => Some (y, SAssign i k0 e)
+      | Some i, Some (e, []) => Some (y, SAssign i k0 (fold_ints e))
       | _, _ => None
       end
     | _ => None
